@@ -100,3 +100,115 @@ def random_reaction(rnd, species, params, tag, types=None, max_order=4, allow_de
     if allow_delay and rnd.random() < 0.3:
         r["delay"] = delay_spec(rnd, species, params, tag)
     return r
+
+
+def network(rnd, nsp=None, nrx=None, counters=False, delays=False, nonmass_consumers=False, max_order=3, k_lo=0.05, k_hi=3.0,
+            x0_hi=8, delay_scale=1.0, named_prob=0.5, types=None, delayed_reactants=False):
+    """A reaction network for trajectory monitors.  Every mass-action rate uses exactly its reactants; reactions with a
+    Hill / general rate consume species only when nonmass_consumers is set (those networks are run in safe mode)."""
+    nsp = nsp or rnd.randint(2, 6)
+    nrx = nrx or rnd.randint(1, 8)
+    species = rnd.sample(SPECIES_POOL, nsp)
+    params = {}
+    rx = []
+    types = types or (["massaction"] * 5 + list(HILL) + ["general", "general"])
+    for i in range(nrx):
+        tag = "r%d" % i
+        ty = rnd.choice(types)
+        if ty == "massaction":
+            order = rnd.choice([0, 1, 1, 1, 2, 2, 3][: max_order * 2 + 1])
+            reac = multiset(rnd, species, order)
+            if order >= 2 and rnd.random() < 0.4:
+                reac = [reac[0]] * order           # homodimer / trimer
+            prods = multiset(rnd, species, rnd.choice([0, 1, 1, 2]))
+            if rnd.random() < 0.2 and reac:
+                prods = prods + [reac[0]]
+            r = {"type": "massaction", "reactants": reac, "products": prods,
+                 "fields": {"k": pfield(rnd, "k_" + tag, nice(rnd, k_lo, k_hi), params, named_prob)}}
+        else:
+            if ty in HILL:
+                f = hill_rxn(rnd, ty, species, params, tag, lo=k_lo, hi=k_hi, named_prob=named_prob)
+                r = {"type": ty, "fields": f}
+            else:
+                r = {"type": "general", "fields": {}, "ast": general_ast(rnd, species, params, tag)}
+            if nonmass_consumers and rnd.random() < 0.6:
+                r["reactants"] = multiset(rnd, species, rnd.choice([1, 1, 2]))
+                if rnd.random() < 0.3:
+                    r["reactants"] = [r["reactants"][0]] * 2
+            else:
+                r["reactants"] = []
+            r["products"] = multiset(rnd, species, rnd.choice([0, 1, 1, 2])) if r["reactants"] else multiset(rnd, species, rnd.choice([1, 1, 2]))
+        if delays and rnd.random() < 0.5:
+            r["delay"] = delay_spec(rnd, species, params, tag, named_prob, scale=delay_scale)
+            if not delayed_reactants:
+                # a delayed reactant is consumed at delivery time without any availability check, so such networks may
+                # legitimately leave the non-negative domain; monitors that assert non-negativity switch them off
+                r["delay"]["reactants"] = []
+        rx.append(r)
+    x0 = {s: rnd.choice([0, 0, 1, 2, 3, rnd.randint(0, x0_hi), rnd.randint(2, x0_hi)]) for s in species}
+    spec = {"species": species, "x0": x0, "params": params, "reactions": rx, "rules": []}
+    if counters:
+        add_counters(spec)
+    return spec
+
+
+def add_counters(spec):
+    """Reaction r gets an extra immediate product N<r> and (if it has a delayed part) a delayed product D<r>."""
+    spec["counters"] = {}
+    for i, r in enumerate(spec["reactions"]):
+        n = "N%d" % i
+        r["products"] = list(r["products"]) + [n]
+        spec["species"].append(n)
+        spec["x0"][n] = 0
+        ent = {"N": n}
+        if r.get("delay"):
+            d = "D%d" % i
+            r["delay"]["products"] = list(r["delay"]["products"]) + [d]
+            spec["species"].append(d)
+            spec["x0"][d] = 0
+            ent["D"] = d
+        spec["counters"][str(i)] = ent
+    return spec
+
+
+def grid(rnd, n_lo=5, n_hi=400, dyadic=True, T=None):
+    n = rnd.randint(n_lo, n_hi)
+    if dyadic:
+        dt = 2.0 ** rnd.randint(-6, -1)
+    else:
+        dt = float("%.3g" % logu(rnd, 0.005, 0.5))
+    if T is not None:
+        dt = T / (n - 1)
+        if dyadic:
+            dt = 2.0 ** round(math.log2(dt))
+    return {"t0": 0.0, "dt": dt, "n": n}
+
+
+def bounded(spec, T, cap=400.0, steps=400):
+    """Cheap mean-field screen (forward Euler on the reference rate equations): False if some species would exceed `cap`
+    within T, i.e. the network is explosive for trajectory monitors."""
+    from . import ref
+    x = {s: float(spec["x0"].get(s, 0)) for s in ref.all_species(spec)}
+    h = T / steps
+    try:
+        for i in range(steps):
+            xs = {k: max(v, 0.0) for k, v in x.items()}
+            d = ref.rhs(spec, xs, spec["params"], i * h)
+            for k in x:
+                x[k] += h * d[k]
+                if not (abs(x[k]) < cap):
+                    return False
+    except (ref.Undefined, OverflowError, ZeroDivisionError, ValueError):
+        return False
+    return True
+
+
+def bounded_network(rnd, T, tries=200, cap=400.0, **kw):
+    counters = kw.pop("counters", False)
+    for _ in range(tries):
+        sp = network(rnd, counters=False, **kw)
+        if bounded(sp, T, cap):
+            if counters:
+                add_counters(sp)
+            return sp
+    raise RuntimeError("no bounded network found")
